@@ -23,6 +23,7 @@ type PropConfig struct {
 	Assumes   []string `json:"assumptions"`
 	FieldGuardPkgs []string `json:"fieldguard_packages"`
 	Env       map[string]string `json:"env"`
+	Bounded   []BoundedSpec     `json:"bounded"`
 }
 
 type CheckConfig struct {
@@ -386,6 +387,9 @@ func RunCheck(cfg *CheckConfig) int {
 	for _, u := range undecided {
 		fmt.Println(u)
 	}
+	if cfg.Only == "" {
+		violations += runBounded(cfg, &pc, knownOpen)
+	}
 	if len(results) == 0 {
 		fmt.Printf("ERROR property=%s generated no obligations\n", cfg.Property)
 		if violations == 0 {
@@ -586,7 +590,7 @@ func writeEvidence(cfg *CheckConfig, pc *PropConfig, eng *Engine, results []*Obl
 		"coverage": map[string]interface{}{
 			// obligations the proof claim is about: all generated ones except those that fail and are
 			// recorded as open known findings (listed under known_finding_obligations, never counted as proved)
-			"obligations": len(results) - len(knownHits), "discharged": discharged,
+			"obligations": len(results) - knownAmong(results), "discharged": discharged,
 			"generated_obligations": len(results), "known_finding_obligations": append([]string{}, knownHits...),
 			"checker_cmd": fmt.Sprintf("bin/govc check --property %s --tier %s", cfg.Property, cfg.Tier),
 			"trusted_base": trusted,
@@ -595,7 +599,7 @@ func writeEvidence(cfg *CheckConfig, pc *PropConfig, eng *Engine, results []*Obl
 			"undecided": undecided, "samples": samples, "all_obligations": all,
 			"vacuity_covers": map[string]interface{}{"functions": len(covers), "exit_reachable_sat": coverOK},
 			"explanation": pc.Explain, "not_decided": pc.NotDecided,
-			"bounded": []string{},
+			"bounded": append([]string{}, boundedReports...),
 		},
 		"assumptions": ass, "wall_s": round3(wall), "violations": violations,
 	}
@@ -651,4 +655,17 @@ func (cfg *CheckConfig) outBase() string {
 		return cfg.EvidenceDir
 	}
 	return cfg.Verif
+}
+
+// knownAmong: how many generated obligations failed and are recorded as open known findings
+func knownAmong(results []*OblResult) int {
+	n := 0
+	for _, r := range results {
+		for _, k := range knownHits {
+			if k == r.Name {
+				n++
+			}
+		}
+	}
+	return n
 }
